@@ -291,7 +291,8 @@ Theorem C08_server_read_is_spec : forall BUF, (2 <= BUF)%nat -> N.of_nat BUF < U
   | RErr outs e =>
       CInv BUF (sc_conn y) PLine /\ c_win (sc_conn y) = [] /\
       unsent (sc_conn y) = unsent c ++ flat_map serialize (conts_of outs ++ [bad_request_response e]) /\
-      ys = []
+      ys = [] /\
+      c_parsed (sc_conn y) = [] /\ c_files (sc_conn y) = [] /\ c_pmax (sc_conn y) = c_pmax c
   | ROutOfFuel => False
   end.
 Proof. exact server_read_exact. Qed.
